@@ -74,6 +74,9 @@ def _class_source(j: str, feats: tuple[int, ...], lvl: int) -> str:
     body: list[str] = []
     if d:
         body += [f"    x{lvl}: int = {10 + lvl}", f"    s{lvl}: str = 'd{lvl}'"]
+        if len(vis_d) > 1:
+            # ... and re-defines the default of the nearest ancestor that has defaults
+            body.append(f"    s{vis_d[-2]}: str = 'o{lvl}'")
     if i:
         body.append("    def __init__(self, v: int = 7) -> None:")
         if any(f[1] for f in above):
@@ -159,7 +162,12 @@ def _hier_unit(idx: int, feats: tuple[int, ...], placement: str) -> dict:
 
     for k in range(depth):
         cls = f"M.{names[k]}"
-        insts = [f"{cls}()", f"{cls}(3)", f"M.hm{j}({k}, 3)"]
+        insts = [f"{cls}()"] + ([f"{cls}(3)"] if any_init[k] else []) + [f"M.hm{j}({k}, 3)"]
+        if depth == 1 and not any_init[k]:
+            # no __init__ anywhere: object's own rejects arguments (only here: one observation per such class)
+            add(f"{cls}(3)", f"{k}:construct-with-surplus-argument")
+        for inst in insts[:1] + insts[-1:]:
+            add(inst, f"{k}:construct")
         for inst in insts:
             add(f"apply_seq({inst}, {gets!r})", f"{k}:read-from-interpreter")
         for inst in insts:
@@ -223,6 +231,7 @@ def h_support_header() -> str:
 
 O_PRELUDE = '''\
 import collections
+from typing import Literal, cast
 
 def tI(g: List[str], k: int, r: int, x: int) -> int:
     g.append(str(k))
@@ -273,6 +282,12 @@ def tE(g: List[str], k: int, r: int, x: Set[int]) -> Set[int]:
     return x
 
 def tT(g: List[str], k: int, r: int, x: Tuple[int, int]) -> Tuple[int, int]:
+    g.append(str(k))
+    if r == k:
+        raise ValueError('P:' + str(k))
+    return x
+
+def tW(g: List[str], k: int, r: int, x: Literal['little', 'big']) -> Literal['little', 'big']:
     g.append(str(k))
     if r == k:
         raise ValueError('P:' + str(k))
@@ -393,6 +408,9 @@ class CM:
 def f3(a: int, b: int, c: int = 0) -> Tuple[int, int, int]:
     return (a, b, c)
 
+def f4(a: int, b: int = 0, *, c: int = 0) -> Tuple[int, int, int]:
+    return (a, b, c)
+
 def fk(a: int, *rest: int, k: int = 0, **kw: int) -> Any:
     return (a, rest, k, sorted(kw.items()))
 
@@ -415,19 +433,25 @@ class NewC:
 
 O_SETATTR_PRELUDE = '''\
 class SetC:
-    def __init__(self, g: List[str]) -> None:
-        self.g = g
-        self.a = 0
+    g: List[str]
+    a: int
+    def before(self, v: int) -> None:
+        self.a = v
     def __setattr__(self, name: str, value: object) -> None:
         if name == 'a':
             self.g.append('setattr')
         super().__setattr__(name, value)
+    def __init__(self, g: List[str]) -> None:
+        super().__setattr__('g', g)
+        super().__setattr__('a', 0)
+    def after(self, v: int) -> None:
+        self.a = v
     def put(self, g: List[str], r: int, v: int) -> None:
         super().__setattr__(tS(g, 1, r, 'a'), tI(g, 2, r, v))
 '''
 
-_TAG = re.compile(r"\b([IBSFYLDETOAKP])\((\d),")
-_TAGNUM = re.compile(r"\bt[IBSFYLDETOAKP]\(g, (\d), r,")
+_TAG = re.compile(r"\b([IBSFYLDETOAKPW])\((\d),")
+_TAGNUM = re.compile(r"\bt[IBSFYLDETOAKPW]\(g, (\d), r,")
 
 V3 = ["0", "1", "2"]
 
@@ -472,7 +496,6 @@ O_FORMS: list[tuple[str, list[str], list[str] | None, str]] = [
     ("min(a, b)", ["builtins.min"], None, "= min(I(1, v), I(2, 1))"),
     ("max(a, b)", ["builtins.max"], None, "= max(I(1, v), I(2, 1))"),
     ("min(float, float)", ["builtins.min"], None, "= min(F(1, v * 0.5), F(2, 0.5))"),
-    ("max(int, float)", ["builtins.max"], None, "= max(I(1, v), F(2, 1.0))"),
     ("min(native, native)", ["builtins.min"], None, "= min(K(1, v), K(2, 1)).n"),
     ("max(native, native)", ["builtins.max"], None, "= max(K(1, v), K(2, 1)).n"),
     ("min(a, b, c)", ["builtins.min"], None, "= min(I(1, v), I(2, 1), I(3, 2))"),
@@ -572,16 +595,19 @@ O_FORMS: list[tuple[str, list[str], list[str] | None, str]] = [
     ("ord(bytes[i])", ["builtins.ord"], None, "= Y(1, b'abc')[I(2, v)] + ord('a')"),
     ("object.__new__(cls)", ["__new__@object"], None, "= NewC(g, I(1, v)).v"),
     ("super().__setattr__(name, value)", ["__setattr__@object"], None, "o = SetC(g)\no.put(g, r, v)\nreturn o.a"),
+    ("self.attr = v in a method defined after __setattr__", [], None, "o = SetC(g)\no.after(I(1, v))\nreturn o.a"),
+    ("self.attr = v in a method defined before __setattr__", [], None, "o = SetC(g)\no.before(I(1, v))\nreturn o.a"),
+    ("o.attr = v with user __setattr__", [], None, "o = SetC(g)\no.a = I(1, v)\nreturn o.a"),
     ("int.to_bytes(n, 'little')", ["to_bytes@int"], None, "= I(1, 258 + v).to_bytes(I(2, 2), 'little')"),
     ("int.to_bytes(n, 'big')", ["to_bytes@int"], None, "= I(1, 258 + v).to_bytes(I(2, 2 - v), 'big')"),
-    ("int.to_bytes(n, order)", ["to_bytes@int"], None, "= I(1, 258).to_bytes(I(2, 2), S(3, ['big', 'little', 'x'][v]))"),
+    ("int.to_bytes(n, order)", ["to_bytes@int"], None, "= I(1, 258).to_bytes(I(2, 2), W(3, 'big' if v else 'little'))"),
     ("int.to_bytes(n, 'little', signed=)", ["to_bytes@int"], None, "= I(1, v - 2).to_bytes(I(2, 2), 'little', signed=B(3, v < 2))"),
     ("int.to_bytes(n, order, signed=)", ["to_bytes@int"], None,
-     "= I(1, v - 2).to_bytes(I(2, 2), S(3, 'big'), signed=B(4, v < 2))"),
-    ("int.to_bytes(byteorder=, length=)", ["to_bytes@int"], None, "= I(1, 258 + v).to_bytes(byteorder=S(2, 'big'), length=I(3, 2))"),
+     "= I(1, v - 2).to_bytes(I(2, 2), W(3, 'big'), signed=B(4, v < 2))"),
+    ("int.to_bytes(byteorder=, length=)", ["to_bytes@int"], None, "= I(1, 258 + v).to_bytes(byteorder=W(2, 'big'), length=I(3, 2))"),
     ("int.to_bytes(length=, byteorder='little')", ["to_bytes@int"], None, "= I(1, 258 + v).to_bytes(length=I(2, 2), byteorder='little')"),
     ("int.to_bytes(signed=, length=, byteorder=)", ["to_bytes@int"], None,
-     "= I(1, v - 2).to_bytes(signed=B(2, True), length=I(3, 2), byteorder=S(4, 'big'))"),
+     "= I(1, v - 2).to_bytes(signed=B(2, True), length=I(3, 2), byteorder=W(4, 'big'))"),
     ("bytes[i]", ["__getitem__@bytes"], ["0", "2", "3", "-1", "-4"], "= Y(1, b'abc')[I(2, v)]"),
     # ---------------------------------------------------------------- short-circuit / conditional contexts
     ("a if c else b", [], None, "= I(2, 10) if B(1, v == 1) else I(3, 20)"),
@@ -672,10 +698,10 @@ O_FORMS: list[tuple[str, list[str], list[str] | None, str]] = [
     ("f(c=, b=, a=)", [], None, "= f3(c=I(1, v), b=I(2, 1), a=I(3, 2))"),
     ("f(*a)", [], None, "= f3(*L(1, [v, 2, 3][:v + 1]))"),
     ("f(*a, **d)", [], None, "= f3(*L(1, [v]), **D(2, {'b': 3}))"),
-    ("f(a, *b, c=)", [], None, "= f3(I(1, v), *L(2, [2]), c=I(3, 3))"),
+    ("f(a, *b, c=)", [], None, "= f4(I(1, v), *L(2, [2]), c=I(3, 3))"),
     ("f(**a, **b)", [], None, "= f3(**D(1, {'a': v}), **D(2, {'b': 1}))"),
-    ("f(c=, *a)", [], None, "= f3(c=I(1, 1), *L(2, [v, 2]))"),
-    ("f(a, **d, c=)", [], None, "= f3(I(1, v), **D(2, {'b': 1}), c=I(3, 3))"),
+    ("f(c=, *a)", [], None, "= f4(c=I(1, 1), *L(2, [v, 2]))"),
+    ("f(a, **d, c=)", [], None, "= fk(I(1, v), **D(2, {'y': 1}), k=I(3, 3))"),
     ("f(*a, *b)", [], None, "= f3(*L(1, [v]), *L(2, [2, 3]))"),
     ("f(cond-expr, b)", [], None, "= f3(I(2, v) if B(1, v > 0) else I(3, 9), I(4, 1))"),
     ("varargs f(a, b, c, k=, z=)", [], None, "= fk(I(1, v), I(2, 2), I(3, 3), z=I(4, 4), k=I(5, 5))"),
@@ -707,7 +733,7 @@ O_FORMS: list[tuple[str, list[str], list[str] | None, str]] = [
     ("getattr(Any, name, d)", [], None, "o = Ob(g, 1)\nreturn getattr(A(1, o), S(2, ['n', 'zz', 'n'][v]), I(3, -1))"),
     ("getattr(object, 'lit', d)", [], None, "o = Ob(g, 1)\nreturn getattr(O(1, [o, 5, None][v]), 'n', I(2, -1))"),
     ("getattr(object, name)", [], None, "o = Ob(g, 1)\nreturn getattr(O(1, o), S(2, ['n', 'zz', 'n'][v]))"),
-    ("setattr(object, name, v)", [], None, "o = Ob(g, 1)\nsetattr(O(1, o), S(2, ['n', 'zz', 'n'][v]), I(3, 8))\nreturn o.n"),
+    ("setattr(object, name, v)", [], None, "o = Ob(g, 1)\nsetattr(O(1, o), S(2, 'n'), I(3, 8 + v))\nreturn o.n"),
     ("hasattr(object, name)", [], None, "o = Ob(g, 1)\nreturn hasattr(O(1, o), S(2, ['n', 'zz', 'g'][v]))"),
     ("list.pop(i)", [], ["0", "2", "3", "-1"], "lst = [1, 2, 3]\nx = L(1, lst).pop(I(2, v))\nreturn (x, lst)"),
     ("list.insert(i, x)", [], None, "lst = [1, 2]\nL(1, lst).insert(I(2, v), I(3, 9))\nreturn lst"),
@@ -777,6 +803,22 @@ O_FORMS: list[tuple[str, list[str], list[str] | None, str]] = [
     ("[.. for x in a for y in b]", [], None, "= [(x, y) for x in L(1, [1, 2]) for y in L(2, [3, 4][:v])]"),
     ("{k: v for x in a}", [], None, "= {S(2, str(x)): I(3, x) for x in L(1, [1, 2][:v])}"),
     ("{f(x) for x in a}", [], None, "= {I(2, x % 2) for x in L(1, [1, 2, 3][:v])}"),
+    ("match literal / or / guard", [], None,
+     "match I(1, v):\n    case 0:\n        return S(2, 'zero')\n    case 1 | 2 if B(3, v == 2):\n        return S(4, 'guarded')\n    case _:\n        return S(5, 'other')"),
+    ("match sequence pattern", [], None,
+     "match L(1, [1, 2, 3][:v + 1]):\n    case [a]:\n        return ('one', I(2, a))\n    case [a, *rest] if B(3, len(rest) > 1):\n        return ('many', a, rest)\n    case _:\n        return I(4, -1)"),
+    ("match mapping pattern", [], None,
+     "match D(1, {'a': v, 'b': 2}):\n    case {'a': 0}:\n        return I(2, 0)\n    case {'a': x, 'b': y} if B(3, x == 1):\n        return (x, y)\n    case _:\n        return I(4, -1)"),
+    ("match class pattern", [], None,
+     "match A(1, [Pt(0, 1), Pt(1, 2), 5][v]):\n    case Pt(x=0, y=yy):\n        return ('x0', I(2, yy))\n    case Pt(x=xx) if B(3, xx > 0):\n        return ('pt', xx)\n    case _:\n        return I(4, -1)"),
+    ("try / except tagged handler types", [], None,
+     "try:\n    if v == 1:\n        raise KeyError('P:k')\n    if v == 2:\n        raise IndexError('P:i')\n    return I(1, 0)\nexcept A(2, ValueError):\n    return 'V'\nexcept (A(3, KeyError), A(4, OSError)):\n    return 'K'\nfinally:\n    g.append('fin')"),
+    ("decorated nested def", [], None,
+     "def deco(tag: str) -> Any:\n    g.append('make' + tag)\n    def wrap(f: Any) -> Any:\n        g.append('apply' + tag)\n        return f\n    return wrap\n@deco(S(1, 'a'))\n@deco(S(2, 'b'))\ndef inner() -> int:\n    return v\nreturn inner()"),
+    ("cast(T, x)", [], None, "= cast(int, A(1, v)) + cast(int, I(2, 1))"),
+    ("bytes % tuple", [], None, "= Y(1, b'%d-%s') % (I(2, v), Y(3, b'x'))"),
+    ("return in with in loop", [], None,
+     "for i in range(I(1, 3)):\n    with CM(g, I(2, i), 0) as a:\n        if a == v:\n            return I(3, a)\nreturn I(4, -1)"),
     # ---------------------------------------------------------------- operand read before a later operand changes it
     ("x + f() where f rebinds x", [], None, "x = v\ndef bump() -> int:\n    nonlocal x\n    x += 10\n    return 1\nreturn (x + bump(), x)"),
     ("(x, f(), x) where f rebinds x", [], None, "x = v\ndef bump() -> int:\n    nonlocal x\n    x += 10\n    return 1\nreturn (x, bump(), x)"),
@@ -808,14 +850,14 @@ def family_o() -> tuple[list[dict], dict]:
         lines, n = expand_form(text)
         name = f"o_{k:03d}"
         src = [f"def {name}(g: List[str], r: int, v: int) -> Any:"] + ["    " + ln for ln in lines] + [""]
-        extra = ""
+        prelude = [O_PRELUDE]
         if "NewC" in text:
-            extra = O_NEW_PRELUDE + "\n"
+            prelude.append(O_NEW_PRELUDE)
         if "SetC" in text:
-            extra = O_SETATTR_PRELUDE + "\n"
+            prelude.append(O_SETATTR_PRELUDE)
         units.append({"name": name, "family": "o", "construct": f"evaluation order: {label}", "sigkey": label,
-                      "src": extra + "\n".join(src), "doms": [["[]"], [str(i) for i in range(n + 1)], vdom or V3],
-                      "calls": [f"M.{name}(a0, a1, a2)"], "alias": False, "prelude": O_PRELUDE, "spec": spec,
+                      "src": "\n".join(src), "doms": [["[]"], [str(i) for i in range(n + 1)], vdom or V3],
+                      "calls": [f"M.{name}(a0, a1, a2)"], "alias": False, "prelude": prelude, "spec": spec,
                       "n_tags": n})
     return units, {"forms": len(units), "tagged_operand_positions": sum(u["n_tags"] for u in units)}
 
